@@ -8,7 +8,7 @@ real classes:
  const       a body turning at a constant rate for n ticks: AngularRate closed form, streamed through
              update() and run through the batch constructor, must equal q0 (x) exp(w t / 2) at every tick
              (1e-13 * k + 1e-12); series orders 0..6 from the same prior: one-step defect against the
-             closed form <= 2.5 * x^(k+1), x = |w| dt / 2, and not increasing with the order (1e-14 floor);
+             closed form <= 2.5 * x^(k+1) + 1e-14, x = |w| dt / 2, and not increasing with the order (1e-14 floor);
  deadreckon  a motion history with accelerometer dropouts: at every tick whose accelerometer sample is
              null, Madgwick, Mahony and AQUA (IMU and MARG, each in its own attitude convention) must
              advance by the normalised first-order step from their previous output; on every tick the
@@ -160,7 +160,7 @@ class Check:
                     break
                 d = float(np.linalg.norm(qs - exact))
                 log.add('series', k, order, qs)
-                bound = 2.5 * x ** (order + 1) + 1e-15
+                bound = 2.5 * x ** (order + 1) + 1e-14        # floor: a few ulps of the 4x4 products (1e-15 was too tight: 1.09e-15 seen at order 6)
                 if d > 1e-13:
                     stats[f'max_series_ratio_order{order}'] = max(stats.get(f'max_series_ratio_order{order}', 0.0), d / x ** (order + 1))
                 if not d <= bound:
